@@ -1416,7 +1416,7 @@ func checkTreesAreParsed(w *World, r *Report) {
 		}
 		n += checkTreeIsParsed(w, r, "R14.10", fn)
 	}
-	r.floor("stores of a template's tree", n, 2)
+	r.floor("stores of a template's tree", n, 1)
 }
 
 func checkTreeIsParsed(w *World, r *Report, rule string, fn *ssa.Function) int {
@@ -1445,7 +1445,25 @@ func checkTreeIsParsed(w *World, r *Report, rule string, fn *ssa.Function) int {
 				return
 			case *ssa.Parameter:
 				if rule != "R16.9" {
-					return // handed in by the caller (RegisterTemplate-style constructors)
+					// an exported constructor is handed its tree by the library's user
+					// (NewTemplate); an unexported one by the package: what its callers pass
+					pf := x.Parent()
+					if pf.Object() == nil || pf.Object().Exported() {
+						return
+					}
+					idx := -1
+					for i, q := range pf.Params {
+						if q == x {
+							idx = i
+						}
+					}
+					for _, e := range realInEdges(pf) {
+						if e.Site == nil || e.Site.Common().StaticCallee() != pf || idx < 0 || idx >= len(e.Site.Common().Args) {
+							continue
+						}
+						walk(e.Site.Common().Args[idx], d+1)
+					}
+					return
 				}
 			case *ssa.Phi:
 				for _, e := range x.Edges {
@@ -1824,5 +1842,5 @@ func checkConstructorsAgreeOnTree(w *World, r *Report) {
 			r.ok("R16.12", ssaName(s.fn), construct, w.posOf(s.al.Pos()), fmt.Sprintf("%d field(s) derived from the tree anywhere; all set here", len(derived)), len(derived) > 0)
 		}
 	}
-	r.floor("constructions of a Template around a tree", len(sites), 4)
+	r.floor("constructions of a Template around a tree", len(sites), 2)
 }
